@@ -100,6 +100,7 @@ def prepare(prog: dict, scenario: str, basedir: str) -> tuple[str, dict]:
     run.start()
     hold = {"A": lambda r: r["typ"] == "StartStage" and r["key"][1] == "d",
             "B": lambda r: r["typ"] == "CompleteStage" and r["key"][1] in ("b", "c", "e"),
+            "C": lambda r: (r["typ"] == "StartStage" and r["key"][1] == "d") or (r["typ"] == "CompleteStage" and r["key"][1] == "c"),
             "M": lambda r: r["typ"] == "StartStage" and r["key"][1] in ("b", "c", "e"),
             "X": lambda r: r["typ"] == "StartStage" and r["key"][1] in ("b", "c", "e")}[scenario]
     for _ in range(2000):
@@ -134,6 +135,8 @@ def init_st(state: dict, ups: list[str]) -> str:
 
 def race_cfg(workers: list[int], ups: list[str], join: str, thr: int, scenario: str, initst: str) -> str:
     branch = " @@ ".join('%d :> "%s"' % (w, ups[(w - 1) % len(ups)]) for w in workers)
+    if scenario == "C":
+        branch = '1 :> "d" @@ 2 :> "c"'   # worker 1: StartStage(d) from the early branch; worker 2: CompleteStage(c)
     return "\n".join([
         "---- MODULE RaceCfg ----", "EXTENDS TLC",
         "Workers == {%s}" % ", ".join(map(str, workers)),
@@ -174,9 +177,9 @@ def explore(rd: str, cfgmod: str) -> tuple[dict, str, tlc.TLCResult]:
         fh.write(cfgmod)
     cfg = "\n".join(["INIT InitP", "NEXT Next", "INVARIANT ClaimOnce", "INVARIANT PlanOnce",
                      "INVARIANT StartedExactlyOnce", "INVARIANT BranchesRecorded", "INVARIANT NothingLeftLocked",
-                     "INVARIANT MutexExclusive", "INVARIANT ChoiceOneWinner", "INVARIANT SiblingsSettled",
+                     "INVARIANT JoinNotWedged", "INVARIANT MutexExclusive", "INVARIANT ChoiceOneWinner", "INVARIANT SiblingsSettled",
                      "ACTION_CONSTRAINT Edge", "CHECK_DEADLOCK FALSE"]) + "\n"
-    r = tlc.run_tlc(rd, "MC_Race", cfg, workers=1, extra=["-coverage", "1"])
+    r = tlc.run_tlc(rd, "MC_Race", cfg, workers=1, extra=["-coverage", "1", "-continue"])
     edges: dict[str, list[str]] = {}
     init = None
     for m in re.finditer(r'<<\s*"(EDGE|INIT)",\s*"((?:[^"\\]|\\.)*)"(?:,\s*"((?:[^"\\]|\\.)*)")?\s*>>', r.out, re.S):
@@ -316,6 +319,8 @@ def replay_path(prog: dict, basedb: str, held: list[dict], workers: list[int], u
         for w in workers:
             if scenario == "A":
                 row = held[w - 1]
+            elif scenario == "C":
+                row = next(r for r in held if r["typ"] == ("StartStage" if w == 1 else "CompleteStage"))
             else:  # B, M, X: the worker's message is the one about its branch / sibling stage
                 br = ups[(w - 1) % len(ups)]
                 row = next(r for r in held if r["key"][1] == br)
@@ -399,6 +404,8 @@ def component(rep: Reporter, tier: str, seed: int, which: str) -> dict:
                 configs.append((join, 2, scen, [1, 2]))
         configs.append(("AND", 3, "A", [1, 2, 3]))
         configs.append(("N_OF_M", 3, "B", [1, 2, 3]))
+        configs.append(("DISCRIMINATOR", 2, "C", [1, 2]))    # early branch's StartStage(d) vs the late branch's completion
+        configs.append(("MULTI_MERGE", 2, "C", [1, 2]))
         if not quick:
             configs.append(("N_OF_M", 3, "A", [1, 2, 3]))
             configs.append(("DISCRIMINATOR", 3, "B", [1, 2, 3]))
@@ -410,6 +417,8 @@ def component(rep: Reporter, tier: str, seed: int, which: str) -> dict:
     info = []
     samples = []
     jobs = []
+    model_viol = []      # formulas TLC found false on Race.tla; they count once the replay shows the code follows the model
+    mismatched = set()
     try:
         for (join, nup, scen, workers) in configs:
             prog = scenario_program(join, nup)
@@ -424,10 +433,7 @@ def component(rep: Reporter, tier: str, seed: int, which: str) -> dict:
             edges, init, r = explore(rd, race_cfg(workers, ups, join, thr, scen, init_st(prep["state"], ups)))
             states += r.distinct
             transitions += r.generated
-            if r.violated:
-                rep.violation(f"{prog['name']} scenario {scen}: TLC reports {r.violated} violated on Race.tla",
-                              {"formula": r.violated[0], "state": None, "program": prog, "source": "model"},
-                              {"kind": "race-model", "program": prog, "scenario": scen, "violated": r.violated})
+            model_viol.append((prog, scen, sorted(set(r.violated)), len(jobs)))
             if not r.ok and not r.violated:
                 rep.machinery_failure(f"TLC on Race.tla ({join},{nup},{scen}): " + r.out[-1500:])
                 continue
@@ -450,12 +456,21 @@ def component(rep: Reporter, tier: str, seed: int, which: str) -> dict:
             for (cnt, bad), job in zip(ex.map(_job, jobs), jobs):
                 replayed += cnt
                 for b in bad:
+                    mismatched.add((job[0]["name"], job[5]))
                     rep.violation(f"{job[0]['name']} scenario {job[5]} schedule {b['schedule']}: after step {b['step']} "
                                   f"(worker {b['worker']} -> {b['model_pc']}) the real engine's state differs from the "
                                   f"specification: want {json.dumps(b['want'])[:300]} got {json.dumps(b['got'])[:300]} {b['error']}",
                                   {"formula": "CONFORMANCE", "state": None, "program": job[0], "source": "race"},
                                   {"kind": "race", "program": job[0], "scenario": job[5], "workers": job[3],
                                    "schedule": b["schedule"], "mismatch": b})
+        for (prog, scen, formulas, _n) in model_viol:
+            for fm in formulas:
+                if (prog["name"], scen) in mismatched:
+                    continue    # the code does not follow the model there: already reported as conformance violations
+                rep.violation(f"{prog['name']} scenario {scen}: {fm} is false on Race.tla and every interleaving of that "
+                              f"configuration was replayed on the real handlers with identical states - the real engine has this behaviour",
+                              {"formula": fm, "state": None, "program": prog, "source": "race-model", "scenario": scen},
+                              {"kind": "race-model", "program": prog, "scenario": scen, "formula": fm})
     finally:
         shutil.rmtree(base, ignore_errors=True)
     return {"states": states, "transitions": transitions, "replayed": replayed, "configs": info, "samples": samples}
